@@ -9,6 +9,28 @@ def adt_lookup(w, adt_id):
     return None
 
 
+def subst(ty, args):
+    """substitute type parameters of a field type by the generic arguments of the ADT instance"""
+    if ty is None or not args:
+        return ty
+    k = ty.get('k')
+    if k == 'param':
+        i = ty['idx']
+        if i < len(args) and args[i].get('k') not in ('lt', 'const'):
+            return args[i]
+        return ty
+    out = dict(ty)
+    if 't' in ty and isinstance(ty['t'], dict):
+        out['t'] = subst(ty['t'], args)
+    if 'ts' in ty:
+        out['ts'] = [subst(x, args) for x in ty['ts']]
+    if 'args' in ty and isinstance(ty['args'], list):
+        out['args'] = [subst(x, args) if isinstance(x, dict) else x for x in ty['args']]
+    if 'upvars' in ty:
+        out['upvars'] = [subst(x, args) for x in ty['upvars']]
+    return out
+
+
 def name_projection(w, ty, proj, variant=None):
     """walk `proj` (tuple of prov-style elems: ('*',), ('f', i), ('v', i)) from type `ty` (json);
     returns (steps, final_ty) where steps is a list of 'Struct.field' strings; unknown => None ty"""
@@ -45,7 +67,7 @@ def name_projection(w, ty, proj, variant=None):
                 f = v['fields'][e[1]]
                 pre = a['id'] if a['kind'] != 'enum' else '%s::%s' % (a['id'], v['name'])
                 steps.append('%s.%s' % (pre, f['name']))
-                cur = f['ty']
+                cur = subst(f['ty'], cur.get('args') or [])
                 cur_variant = None
             elif cur['k'] == 'tuple':
                 steps.append('tuple.%d' % e[1])
